@@ -6,10 +6,20 @@
 //!    every edit balances (I = O + D), continues from its predecessor's O, every fragment starts
 //!    with the state at its creation; ManifestVerifier accepts every fragment; LsmVerifier never
 //!    reports corruption on a history the store produced.
-//!  * correspondence: `Blue.Books.verify` over the canonical-setsum group on the same records ==
-//!    the real ManifestVerifier's verdict; the model's sum of the listed digests == recorded `O`.
-//!  * tamper stream: one hex digit of one recorded digest changed in a copy of a fragment — the
-//!    real verifier and the model must both reject.
+//!  * correspondence (digests): `Blue.Books.verify` over the canonical-setsum group on the same
+//!    records == the real ManifestVerifier's verdict; the model's sum of the listed digests ==
+//!    recorded `O`; tamper stream: one hex digit of one recorded digest changed in a copy of a
+//!    fragment — both must reject; or its text changed to another spelling of the same value (`+x`,
+//!    upper case) — both must accept.
+//!  * correspondence (contents, `vone pass`): every pass of the real LsmVerifier against
+//!    `Blue.Verifier.pass` run with the real checks (`Blue.VerifyOne.contentChecker`) on the dumped
+//!    directory (digests in full), the contents of every file the pass can read (through the
+//!    implementation's cursors, each entry with the setsum the real `sst::Setsum` gives it alone)
+//!    and the policy: status with the failing check, unlinked names, verify/ state.  Passes inside
+//!    histories; on untampered copies; on copies with ONE entry of ONE file changed under the
+//!    file's name (`tamper_matrix`: file kind x tamper kind x metadata kept/recomputed), which must
+//!    end in a corruption error; on hand-written directories with one garbage collection whose
+//!    record is consistent but whose outputs are not the policy's (`gc_directed`).
 use crate::common::*;
 
 fn tainted(v: Verdict, taint: &Option<String>) -> Verdict {
@@ -166,14 +176,26 @@ fn flip_hex_digit(rng: &mut Rng, s: &str) -> String {
     String::from_utf8(b).unwrap()
 }
 
+/// a copy of a store directory for a verifier pass: SSTs and trash entries are never written in
+/// place (the verifier unlinks, the tamper stream replaces a file by rename), so they are hard
+/// links; everything else (manifests, logs, verify/) is copied
 fn copy_dir(from: &Path, to: &Path) -> std::io::Result<()> {
+    copy_dir_at(from, to, false)
+}
+
+fn copy_dir_at(from: &Path, to: &Path, link: bool) -> std::io::Result<()> {
     std::fs::create_dir_all(to)?;
     for e in std::fs::read_dir(from)? {
         let e = e?;
         let p = e.path();
         let t = to.join(e.file_name());
         if p.is_dir() {
-            copy_dir(&p, &t)?;
+            let name = e.file_name().to_string_lossy().to_string();
+            copy_dir_at(&p, &t, link || name == "sst" || name == "trash")?;
+        } else if link && p.extension().map(|x| x == "sst").unwrap_or(false) {
+            if std::fs::hard_link(&p, &t).is_err() {
+                std::fs::copy(&p, &t)?;
+            }
         } else {
             std::fs::copy(&p, &t)?;
         }
@@ -181,29 +203,684 @@ fn copy_dir(from: &Path, to: &Path) -> std::io::Result<()> {
     Ok(())
 }
 
-/// Rejection half for file contents: copy the store directory, find a garbage-collection edit the
-/// verifier has not processed yet, drop / duplicate-with-new-timestamp / modify ONE entry of one
-/// of the files that edit removed (keeping the file's name, so every recorded digest still
-/// matches), and run the real LsmVerifier on the copy: it must report corruption.  The same copy
-/// untampered must verify (otherwise the run is inconclusive and only counted).
-fn tamper_sst_under_gc(rec: &mut Recorder, rng: &mut Rng, sim: &Sim, root: &str, tag: &str) {
-    let frags = list_fragments(root);
-    if frags.len() < 3 {
+// ---------------------------------------------------------------------------------------------
+// `vone`: one whole pass of the real LsmVerifier against `Blue.Verifier.pass` run with the real
+// checks (`Blue.VerifyOne.contentChecker`): the directory as the pass finds it (digests in full),
+// the contents of every file the pass can read (through the implementation's cursors, each entry
+// with the setsum the real `sst::Setsum` gives it alone), the policy.
+
+#[derive(Clone, Debug, Default)]
+pub struct FullDir {
+    /// digests with a file in sst/
+    sst: Vec<String>,
+    /// basenames in trash/
+    trash: Vec<String>,
+    frags: Vec<(u64, Vec<EditRec>)>,
+    live: Vec<EditRec>,
+    vstrs: Vec<String>,
+    vm: Option<u64>,
+    vo: String,
+    unreadable: bool,
+}
+
+thread_local! {
+    /// contents of untampered files by digest (one history at a time; cleared per history)
+    static CONTENTS: std::cell::RefCell<std::collections::HashMap<String, Vec<Ent>>> = Default::default();
+}
+
+fn ls(root: &str, sub: &str) -> Vec<String> {
+    let mut v: Vec<String> = std::fs::read_dir(format!("{}/{}", root, sub)).map(|rd| rd.flatten().map(|e| e.file_name().to_string_lossy().to_string()).collect()).unwrap_or_default();
+    v.sort();
+    v
+}
+
+fn zero_digest() -> String {
+    setsum::Setsum::default().hexdigest()
+}
+
+pub fn full_dir(root: &str) -> FullDir {
+    let mut d = FullDir::default();
+    d.sst = ls(root, "sst").iter().filter_map(|n| n.strip_suffix(".sst").map(|x| x.to_string())).collect();
+    d.trash = ls(root, "trash");
+    let mut nums: Vec<u64> = ls(root, "mani").iter().filter_map(|n| mani::extract_backup(Path::new(n))).collect();
+    nums.sort();
+    for n in nums {
+        match read_fragment(Path::new(&format!("{}/mani/MANIFEST.{}", root, n))) {
+            Ok(es) => d.frags.push((n, es)),
+            Err(_) => {
+                d.unreadable = true;
+                d.frags.push((n, vec![]));
+            }
+        }
+    }
+    match read_fragment(Path::new(&format!("{}/mani/MANIFEST", root))) {
+        Ok(es) => d.live = es,
+        Err(_) => d.unreadable = true,
+    }
+    d.vo = zero_digest();
+    match mani::ManifestIterator::open(Path::new(&format!("{}/verify/MANIFEST", root))) {
+        Ok(it) => {
+            let mut strs: std::collections::BTreeSet<String> = Default::default();
+            for e in it {
+                let Ok(e) = e else {
+                    d.unreadable = true;
+                    break;
+                };
+                for r in e.rmed() {
+                    strs.remove(r);
+                }
+                for a in e.added() {
+                    strs.insert(a.clone());
+                }
+                if let Some(m) = e.get_info('M') {
+                    d.vm = mani::extract_backup(Path::new(m));
+                }
+                if let Some(o) = e.get_info('O') {
+                    d.vo = o.clone();
+                }
+            }
+            d.vstrs = strs.into_iter().collect();
+        }
+        Err(_) => d.unreadable = true,
+    }
+    d
+}
+
+fn render_edit_full(e: &EditRec) -> String {
+    let mut items: Vec<String> = vec![];
+    items.extend(e.rmed.iter().map(|x| format!("-{}", x)));
+    items.extend(e.added.iter().map(|x| format!("+{}", x)));
+    for (k, v) in [('I', &e.i), ('O', &e.o), ('D', &e.d), ('L', &e.l)] {
+        if let Some(v) = v {
+            items.push(format!("{}{}", k, v));
+        }
+    }
+    if items.is_empty() {
+        ".".into()
+    } else {
+        items.join(",")
+    }
+}
+
+fn render_edits_full(es: &[EditRec]) -> String {
+    if es.is_empty() {
+        "-".into()
+    } else {
+        es.iter().map(render_edit_full).collect::<Vec<_>>().join(";")
+    }
+}
+
+fn plus_sorted(v: &[String]) -> String {
+    let s: std::collections::BTreeSet<&String> = v.iter().collect();
+    if s.is_empty() {
+        "-".into()
+    } else {
+        s.into_iter().cloned().collect::<Vec<_>>().join("+")
+    }
+}
+
+fn item_digest(e: &Ent) -> String {
+    let mut acc = sst::Setsum::default();
+    match &e.2 {
+        Some(v) => acc.put(&e.0, e.1, v),
+        None => acc.del(&e.0, e.1),
+    }
+    acc.into_inner().hexdigest()
+}
+
+fn render_entry_full(e: &Ent) -> String {
+    match &e.2 {
+        Some(v) => format!("{}@{}={}#{}", hex(&e.0), e.1, hex(v), item_digest(e)),
+        None => format!("{}@{}!#{}", hex(&e.0), e.1, item_digest(e)),
+    }
+}
+
+impl FullDir {
+    /// the fragments a pass from this directory will run `verify_one` on
+    fn to_process(&self) -> Vec<&(u64, Vec<EditRec>)> {
+        let n = self.frags.len();
+        self.frags.iter().take(n.saturating_sub(1)).filter(|f| self.vm.map(|m| f.0 > m).unwrap_or(true)).collect()
+    }
+    /// what `get_cursor` shows for every file an edit other than the first of those fragments names.
+    /// Files are named after their contents and never rewritten, so what was read once under a
+    /// name in the store's own directory is reused (`CONTENTS`); `fresh` names the one file of a
+    /// tampered copy that must be read from the copy.
+    fn files(&self, root: &str, fresh: Option<&str>) -> Vec<(String, Vec<Ent>)> {
+        let mut seen: std::collections::BTreeSet<String> = Default::default();
+        let mut out = vec![];
+        for (_, es) in self.to_process() {
+            for e in es.iter().skip(1) {
+                for x in e.added.iter().chain(e.rmed.iter()) {
+                    if !seen.insert(x.clone()) {
+                        continue;
+                    }
+                    let Some(s) = setsum::Setsum::from_hexdigest(x) else { continue };
+                    let digest = s.hexdigest();
+                    let name = format!("{}.sst", digest);
+                    let path = [format!("{}/trash/{}", root, name), format!("{}/sst/{}", root, name)].into_iter().find(|p| Path::new(p).exists());
+                    let Some(p) = path else { continue };
+                    if fresh != Some(digest.as_str()) {
+                        if let Some(ents) = CONTENTS.with(|c| c.borrow().get(&digest).cloned()) {
+                            out.push((digest, ents));
+                            continue;
+                        }
+                    }
+                    if let Ok(ents) = read_sst(&p) {
+                        if fresh != Some(digest.as_str()) {
+                            CONTENTS.with(|c| c.borrow_mut().insert(digest.clone(), ents.clone()));
+                        }
+                        out.push((digest, ents));
+                    }
+                }
+            }
+        }
+        out
+    }
+    fn render_v(&self) -> String {
+        format!("vM={} vO={} vstrs={}", self.vm.map(|n| n.to_string()).unwrap_or_else(|| "-".into()), self.vo, plus_sorted(&self.vstrs))
+    }
+    fn request(&self, root: &str, gc_versions: u64) -> String {
+        self.request_with(root, gc_versions, None)
+    }
+    fn request_with(&self, root: &str, gc_versions: u64, fresh: Option<&str>) -> String {
+        let frags = if self.frags.is_empty() { "-".to_string() } else { self.frags.iter().map(|(n, es)| format!("{}:{}", n, render_edits_full(es))).collect::<Vec<_>>().join("|") };
+        let files = self.files(root, fresh);
+        let files = if files.is_empty() { "-".to_string() } else { files.iter().map(|(d, es)| format!("{}:{}", d, es.iter().map(render_entry_full).collect::<Vec<_>>().join(","))).collect::<Vec<_>>().join("|") };
+        format!(
+            "vone pass gc={} tail={} sst={} trash={} vM={} vO={} vstrs={} frags={} live={} files={}",
+            gc_versions,
+            if tail_checked() { 1 } else { 0 },
+            plus_sorted(&self.sst),
+            plus_sorted(&self.trash),
+            self.vm.map(|n| n.to_string()).unwrap_or_else(|| "-".into()),
+            self.vo,
+            plus_sorted(&self.vstrs),
+            frags,
+            render_edits_full(&self.live),
+            files
+        )
+    }
+}
+
+/// the check of `verify_one` an error of the real verifier comes from, read off its text
+fn fail_class(full: &str) -> String {
+    let table: &[(&str, &str)] = &[
+        ("does not continue", "chain"),
+        ("does not balance", "balance"),
+        ("sst contents do not match", "contents"),
+        ("garbage collection has bad discard", "gc-discard"),
+        ("manifest has bad discard", "discard"),
+        ("data loss", "gc-data-loss"),
+        ("data construction", "gc-construction"),
+        ("gc key less than input", "gc-logic"),
+        ("bad output setsum", "output"),
+        ("bad L field", "bad-L"),
+        ("bad digest", "bad-digest"),
+        ("manifest edit missing", "missing"),
+        ("out of order", "out-of-order"),
+        ("NotFound", "notfound"),
+        ("No such file", "notfound"),
+    ];
+    for (needle, cls) in table {
+        if full.contains(needle) {
+            if *cls == "missing" {
+                if let Some(i) = full.find("manifest edit missing '") {
+                    if let Some(c) = full[i + 23..].chars().next() {
+                        return format!("missing-{}", c);
+                    }
+                }
+            }
+            return cls.to_string();
+        }
+    }
+    format!("other:{}", full.chars().filter(|c| !c.is_whitespace()).take(60).collect::<String>())
+}
+
+/// one pass of the real verifier on `dir`: `ok`, `backoff:<name>`, `corrupt:<check>` or `panic`
+fn real_pass(cfg: &Cfg, dir: &str) -> String {
+    let opts = cfg.options(dir);
+    let r = guarded(std::panic::AssertUnwindSafe(|| match lsmtk::LsmVerifier::open(opts) {
+        Ok(mut v) => v.verify(),
+        Err(e) => Err(e),
+    }));
+    match r {
+        Err(_) => "panic".to_string(),
+        Ok(Ok(())) => "ok".to_string(),
+        Ok(Err(e)) => match lsmtk::backoff_path(&e) {
+            Some(p) => format!("backoff:{}", p),
+            None => format!("corrupt:{}", fail_class(&format!("{:?}", e))),
+        },
+    }
+}
+
+fn status_of_sim(sim: &Sim) -> String {
+    if sim.last_verify == "ok" {
+        "ok".into()
+    } else if let Some(p) = sim.last_verify.strip_prefix("backoff:") {
+        format!("backoff:{}", p)
+    } else {
+        format!("corrupt:{}", fail_class(&sim.last_verify_full))
+    }
+}
+
+fn observed_pass_full(before: &FullDir, after: &FullDir, status: &str) -> String {
+    let a_trash: std::collections::BTreeSet<&String> = after.trash.iter().collect();
+    let gone_t: Vec<String> = before.trash.iter().filter(|x| !a_trash.contains(x)).cloned().collect();
+    let a_frags: std::collections::BTreeSet<u64> = after.frags.iter().map(|f| f.0).collect();
+    let gone_f: Vec<String> = before.frags.iter().map(|f| f.0).filter(|n| !a_frags.contains(n)).map(|n| n.to_string()).collect();
+    format!("st={} trash-={} frags-={} {}", status, plus_sorted(&gone_t), if gone_f.is_empty() { "-".to_string() } else { gone_f.join("+") }, after.render_v())
+}
+
+fn edit_kind(e: &EditRec) -> &'static str {
+    let gc = !e.rmed.is_empty() && e.d.as_deref() != Some(zero_digest().as_str());
+    if e.rmed.is_empty() && e.added.is_empty() {
+        "empty"
+    } else if e.rmed.is_empty() {
+        "ingest"
+    } else if gc {
+        "gc"
+    } else {
+        "compaction"
+    }
+}
+
+/// counts what a pass from `d` has to look at
+fn count_pass(rec: &mut Recorder, d: &FullDir, prefix: &str) -> (usize, usize) {
+    let mut edits = 0;
+    let mut gcs = 0;
+    for (_, es) in d.to_process() {
+        for e in es.iter().skip(1) {
+            edits += 1;
+            let k = edit_kind(e);
+            if k == "gc" {
+                gcs += 1;
+            }
+            rec.count(&format!("{}.edits.{}", prefix, k));
+        }
+    }
+    (edits, gcs)
+}
+
+/// run the real verifier once on `dir` (a directory nothing else is using) and emit the case
+fn pass_case(rec: &mut Recorder, tag: &str, cfg: &Cfg, dir: &str, taint: &Option<String>, expect_corrupt: Option<&str>, prefix: &str, fresh: Option<&str>) -> String {
+    let before = full_dir(dir);
+    if before.unreadable {
+        rec.count(&format!("{}.skipped_unreadable", prefix));
+        return "unreadable".into();
+    }
+    // a copy's files are the store's own (hard links) except the one named `fresh`
+    let req = before.request_with(dir, cfg.gc_versions, fresh);
+    let (edits, gcs) = count_pass(rec, &before, prefix);
+    let status = real_pass(cfg, dir);
+    let after = full_dir(dir);
+    let obs = observed_pass_full(&before, &after, &status);
+    rec.count(&format!("{}.{}", prefix, status.split(':').next().unwrap_or("?")));
+    let v = match expect_corrupt {
+        Some(what) if !status.starts_with("corrupt") => Verdict::Fail { class: taint.clone().unwrap_or_else(|| "tampered-sst-entry-accepted".to_string()), detail: format!("{} {}: the pass ends {} (a corruption error was due)", tag, what, status) },
+        None if status != "ok" => Verdict::Fail { class: taint.clone().unwrap_or_else(|| "verifier-rejects-store-history".to_string()), detail: format!("{} pass on an untampered copy ends {}", tag, status) },
+        _ => Verdict::Ok,
+    };
+    rec.case(&req, &obs, tainted(v, taint), if edits >= 1 { Some(fnv(format!("{}{}", req.len(), &req[..req.len().min(4000)]).as_bytes()) ^ fnv(obs.as_bytes()) ^ gcs as u64) } else { None });
+    status
+}
+
+/// does the code under test compare the inputs left after the last output of a garbage collection
+/// with the collector (fixes/c04-verify-gc-tail.diff)?  Decided on one directed directory: inputs
+/// {a@5, a@2, b@3}, policy versions = 1, output {a@5} and D = setsum{a@2, b@3}.
+fn tail_checked() -> bool {
+    static T: std::sync::OnceLock<bool> = std::sync::OnceLock::new();
+    *T.get_or_init(|| {
+        let root = scratch_dir("c04.taildetect");
+        let ins: Vec<Vec<Ent>> = vec![vec![(b"a".to_vec(), 5, Some(b"v5".to_vec())), (b"a".to_vec(), 2, Some(b"v2".to_vec())), (b"b".to_vec(), 3, Some(b"w3".to_vec()))]];
+        let outs: Vec<Vec<Ent>> = vec![vec![(b"a".to_vec(), 5, Some(b"v5".to_vec()))]];
+        let ok = build_gc_dir(&root, &ins, &outs, None).is_ok();
+        let cfg = gcdir_cfg(1);
+        let st = if ok { real_pass(&cfg, &root) } else { "build-failed".to_string() };
+        let _ = std::fs::remove_dir_all(&root);
+        st == "corrupt:gc-data-loss"
+    })
+}
+
+fn gcdir_cfg(versions: u64) -> Cfg {
+    Cfg { memtable_bytes: 1 << 20, target_file: 1 << 22, min_file: 1 << 12, target_block: 4096, l0_mandatory_files: 4, l0_stall_files: 12, max_compaction_files: 64, gc_versions: versions, mani_ratio: 10 }
+}
+
+fn build_sst(path: &str, entries: &[Ent]) -> Result<(), String> {
+    use sst::Builder;
+    let mut b = sst::SstBuilder::new(sst::SstOptions::default(), path).map_err(|e| format!("{:?}", e))?;
+    for (k, t, v) in entries {
+        match v {
+            Some(v) => b.put(k, *t, v).map_err(|e| format!("{:?}", e))?,
+            None => b.del(k, *t).map_err(|e| format!("{:?}", e))?,
+        }
+    }
+    b.seal().map_err(|e| format!("{:?}", e))?;
+    Ok(())
+}
+
+/// A store directory written by hand: the files `ins` (in trash/) were ingested, one transaction
+/// removed them and added the files `outs` (in sst/), and the manifest has rolled over twice since,
+/// so that the verifier processes the fragment that holds the transaction.  Every digest is what
+/// the files say (I = Σ ins, D = Σ ins − Σ outs, O = I − D) unless `d_override` gives another D
+/// (O follows, so that the transaction still balances).
+fn build_gc_dir(root: &str, ins: &[Vec<Ent>], outs: &[Vec<Ent>], d_override: Option<setsum::Setsum>) -> Result<(), String> {
+    let _ = std::fs::remove_dir_all(root);
+    for sub in ["mani", "sst", "trash"] {
+        std::fs::create_dir_all(format!("{}/{}", root, sub)).map_err(|e| e.to_string())?;
+    }
+    let mut i_sum = setsum::Setsum::default();
+    let mut o_sum = setsum::Setsum::default();
+    let mut in_names = vec![];
+    let mut out_names = vec![];
+    for f in ins {
+        let s = entry_setsum(f);
+        i_sum += s;
+        in_names.push(s.hexdigest());
+        build_sst(&format!("{}/trash/{}.sst", root, s.hexdigest()), f)?;
+    }
+    for f in outs {
+        let s = entry_setsum(f);
+        o_sum += s;
+        out_names.push(s.hexdigest());
+        if !in_names.contains(&s.hexdigest()) {
+            build_sst(&format!("{}/sst/{}.sst", root, s.hexdigest()), f)?;
+        }
+    }
+    let d = d_override.unwrap_or(i_sum - o_sum);
+    let o = i_sum - d;
+    let z = zero_digest();
+    let rollup = |names: &[String], total: &setsum::Setsum| {
+        let mut names = names.to_vec();
+        names.sort();
+        names.dedup();
+        EditRec { i: Some(total.hexdigest()), o: Some(total.hexdigest()), d: Some(z.clone()), l: None, added: names, rmed: vec![] }
+    };
+    // the first fragment of a store: the empty state, one ingest per input file, the transaction
+    let mut edits = vec![rollup(&[], &setsum::Setsum::default())];
+    let mut acc = setsum::Setsum::default();
+    let mut seen: Vec<String> = vec![];
+    for f in ins {
+        let s = entry_setsum(f);
+        if seen.contains(&s.hexdigest()) {
+            continue;
+        }
+        seen.push(s.hexdigest());
+        let minus = setsum::Setsum::default() - s;
+        edits.push(EditRec { i: Some(acc.hexdigest()), o: Some((acc + s).hexdigest()), d: Some(minus.hexdigest()), l: None, added: vec![s.hexdigest()], rmed: vec![] });
+        acc += s;
+    }
+    in_names.sort();
+    in_names.dedup();
+    out_names.sort();
+    out_names.dedup();
+    edits.push(EditRec { i: Some(i_sum.hexdigest()), o: Some(o.hexdigest()), d: Some(d.hexdigest()), l: None, added: out_names.clone(), rmed: in_names.clone() });
+    write_fragment(Path::new(&format!("{}/mani/MANIFEST.1", root)), &edits);
+    write_fragment(Path::new(&format!("{}/mani/MANIFEST.2", root)), &[rollup(&out_names, &o)]);
+    write_fragment(Path::new(&format!("{}/mani/MANIFEST", root)), &[rollup(&out_names, &o)]);
+    Ok(())
+}
+
+/// what the real collector retains of the merged run (the run is sorted, (key, timestamp)s distinct)
+fn real_retained(run: &[Ent], versions: u64) -> Result<Vec<(Vec<u8>, u64)>, String> {
+    use sst::reference::ReferenceBuilder;
+    use sst::Cursor;
+    let mut b = ReferenceBuilder::default();
+    for (k, t, v) in run {
+        match v {
+            Some(v) => b.put(k, *t, v),
+            None => b.del(k, *t),
+        }
+        .map_err(|e| format!("{:?}", e))?;
+    }
+    let mut c = b.seal().map_err(|e| format!("{:?}", e))?.cursor();
+    c.seek_to_first().map_err(|e| format!("{:?}", e))?;
+    c.next().map_err(|e| format!("{:?}", e))?;
+    let policy = sst::gc::GarbageCollectionPolicy::Versions { number: std::num::NonZeroU64::new(versions).unwrap() };
+    let mut gc = policy.collector(c, 0).map_err(|e| format!("{:?}", e))?;
+    let mut out = vec![];
+    while let Some(kr) = gc.next().map_err(|e| format!("{:?}", e))? {
+        out.push((kr.key.to_vec(), kr.timestamp));
+        if out.len() > 100_000 {
+            return Err("collector-does-not-terminate".into());
+        }
+    }
+    Ok(out)
+}
+
+const GC_MUTATIONS: &[&str] = &["honest", "over-retain", "drop-retained-inner", "drop-retained-last", "drop-retained-tail2", "alter-retained-value", "add-foreign-entry", "wrong-discard", "retain-nothing"];
+
+/// Directed stream on `verify_gc` itself: a garbage collection whose RECORD is consistent (every
+/// digest is what the files say) but whose outputs are not what the policy asks for.  Tampers that
+/// keep a file's name never get this far (the contents check comes first).
+fn gc_directed(rec: &mut Recorder, seed: u64, idx: u64) {
+    let mut rng = Rng::for_case(seed, 1041, idx);
+    let versions = *rng.pick(&[1u64, 1, 2, 3]);
+    let nkeys = rng.range(1, 4) as usize;
+    let mut ts_pool: Vec<u64> = (1..=24).collect();
+    rng.shuffle(&mut ts_pool);
+    let mut run: Vec<Ent> = vec![];
+    let mut vc = 0u64;
+    for k in 0..nkeys {
+        let key = ALPHABET[k + 1].to_vec();
+        let nv = rng.range(1, 4) as usize;
+        let mut tss: Vec<u64> = (0..nv).map(|_| ts_pool.pop().unwrap()).collect();
+        tss.sort_by(|a, b| b.cmp(a));
+        for t in tss {
+            vc += 1;
+            let val = if rng.chance(1, 4) { None } else { Some(format!("v{}", vc).into_bytes()) };
+            run.push((key.clone(), t, val));
+        }
+    }
+    let k = rng.range(1, 3) as usize;
+    let mut ins: Vec<Vec<Ent>> = vec![vec![]; k];
+    for e in &run {
+        ins[rng.below(k as u64) as usize].push(e.clone());
+    }
+    ins.retain(|f| !f.is_empty());
+    let kept_keys = match real_retained(&run, versions) {
+        Ok(k) => k,
+        Err(e) => {
+            rec.case(&format!("# gcdir {} collector", idx), "#", Verdict::Fail { class: "collector-error".into(), detail: e }, None);
+            return;
+        }
+    };
+    let is_kept = |e: &Ent| kept_keys.iter().any(|(k, t)| *k == e.0 && *t == e.1);
+    let kept: Vec<Ent> = run.iter().filter(|e| is_kept(e)).cloned().collect();
+    let dropped: Vec<Ent> = run.iter().filter(|e| !is_kept(e)).cloned().collect();
+    let mut mutation = GC_MUTATIONS[(idx % GC_MUTATIONS.len() as u64) as usize];
+    let mut out = kept.clone();
+    let mut d_override = None;
+    // what the verifier owes: "ok", "corrupt", or "tail" (a retained entry after the last output is gone)
+    let mut due = "ok";
+    match mutation {
+        "over-retain" if !dropped.is_empty() => {
+            // a dropped VALUE is kept too (a kept tombstone could shadow data: not this stream)
+            let e = dropped[rng.below(dropped.len() as u64) as usize].clone();
+            out.push(e);
+            out.sort_by(|a, b| a.0.cmp(&b.0).then(b.1.cmp(&a.1)));
+        }
+        "drop-retained-inner" if kept.len() >= 2 => {
+            out.remove(rng.below(kept.len() as u64 - 1) as usize);
+            due = "corrupt";
+        }
+        "drop-retained-last" if !kept.is_empty() => {
+            out.pop();
+            due = "tail";
+        }
+        "drop-retained-tail2" if kept.len() >= 2 => {
+            out.pop();
+            out.pop();
+            due = "tail";
+        }
+        "alter-retained-value" if !kept.is_empty() => {
+            let i = rng.below(kept.len() as u64) as usize;
+            out[i].2 = Some(b"altered".to_vec());
+            due = "corrupt";
+        }
+        "add-foreign-entry" => {
+            let i = rng.below(run.len() as u64) as usize;
+            out.push((run[i].0.clone(), 1000 + idx, Some(b"foreign".to_vec())));
+            out.sort_by(|a, b| a.0.cmp(&b.0).then(b.1.cmp(&a.1)));
+            due = "corrupt";
+        }
+        "wrong-discard" => {
+            let mut x = sst::Setsum::default();
+            x.put(b"zz", 77, b"never stored");
+            let real_d = entry_setsum(&run) - entry_setsum(&out);
+            d_override = Some(real_d + x.into_inner());
+            due = "corrupt";
+        }
+        "retain-nothing" if !kept.is_empty() => {
+            out.clear();
+            due = "tail";
+        }
+        _ => mutation = "honest",
+    }
+    if mutation == "honest" {
+        out = kept.clone();
+        d_override = None;
+        due = "ok";
+    }
+    // cut the outputs into one or two files
+    let mut outs: Vec<Vec<Ent>> = vec![];
+    if !out.is_empty() {
+        let cut = if out.len() >= 2 && rng.chance(1, 2) { rng.range(1, out.len() as u64 - 1) as usize } else { out.len() };
+        outs.push(out[..cut].to_vec());
+        if cut < out.len() {
+            outs.push(out[cut..].to_vec());
+        }
+    }
+    let root = scratch_dir(&format!("c04.gcdir.{}", idx));
+    if let Err(e) = build_gc_dir(&root, &ins, &outs, d_override) {
+        rec.case(&format!("# gcdir {} build", idx), "#", Verdict::Fail { class: "harness-build-error".into(), detail: e }, None);
         return;
     }
-    // fragments the verifier will process: all but the last two.  Any file a transaction in them
-    // adds (a compaction / GC / flush output) or removes (an input) is a candidate.
-    let mut cands: Vec<(String, &'static str)> = vec![];
-    for f in &frags[..frags.len() - 2] {
-        let Ok(edits) = read_fragment(f) else { return };
-        for e in edits.iter().skip(1) {
-            let zero = setsum::Setsum::default().hexdigest();
-            let gc = !e.rmed.is_empty() && e.d.as_deref() != Some(zero.as_str());
+    let cfg = gcdir_cfg(versions);
+    let before = full_dir(&root);
+    let req = before.request(&root, versions);
+    let status = real_pass(&cfg, &root);
+    let after = full_dir(&root);
+    let obs = observed_pass_full(&before, &after, &status);
+    let _ = std::fs::remove_dir_all(&root);
+    rec.count(&format!("gcdir.{}.{}", mutation, status.replace(':', ".")));
+    let v = match due {
+        "ok" if status != "ok" => Verdict::Fail { class: "verifier-rejects-policy-conform-gc".into(), detail: format!("gcdir {} {}: {}", idx, mutation, status) },
+        "corrupt" if !status.starts_with("corrupt") => Verdict::Fail { class: "inconsistent-gc-accepted".into(), detail: format!("gcdir {} {}: the pass ends {}", idx, mutation, status) },
+        "tail" => {
+            // observation O-C04-1: as the code is, a retained entry that sorts after the last output
+            // is not looked for; the model follows the code under test (`tail=`)
+            if status == "ok" {
+                rec.count("gcdir.retained_entry_after_last_output_gone_and_accepted");
+            }
+            if tail_checked() && status == "ok" {
+                Verdict::Fail { class: "inconsistent-gc-accepted".into(), detail: format!("gcdir {} {}: the pass ends ok although the tail is checked", idx, mutation) }
+            } else {
+                Verdict::Ok
+            }
+        }
+        _ => Verdict::Ok,
+    };
+    rec.case(&req, &obs, v, Some(fnv(req.as_bytes())));
+}
+
+const TAMPER_KINDS: &[&str] = &["drop", "duplicate", "alter-value", "alter-timestamp", "add-entry"];
+const ROLES: &[&str] = &["ingest-add", "compaction-output", "compaction-input", "gc-output", "gc-input"];
+
+/// one entry of `entries` changed; None = this kind does not apply to this file
+fn tamper_entries(rng: &mut Rng, entries: &mut Vec<Ent>, kind: &str, fresh_ts: u64) -> Option<()> {
+    let i = rng.below(entries.len() as u64) as usize;
+    let first_of_key = |es: &Vec<Ent>, i: usize| {
+        let mut j = i;
+        while j > 0 && es[j - 1].0 == es[i].0 {
+            j -= 1;
+        }
+        j
+    };
+    match kind {
+        "drop" => {
+            if entries.len() < 2 {
+                return None; // an SST cannot be empty
+            }
+            entries.remove(i);
+        }
+        "duplicate" => {
+            // the same key and payload once more, under a timestamp nothing in the store carries
+            let mut e = entries[i].clone();
+            e.1 = fresh_ts;
+            let j = first_of_key(entries, i);
+            entries.insert(j, e);
+        }
+        "alter-value" => {
+            entries[i].2 = Some(match &entries[i].2 {
+                Some(v) => {
+                    let mut v = v.clone();
+                    v.push(b'~');
+                    v
+                }
+                None => b"was-a-tombstone".to_vec(),
+            });
+        }
+        "alter-timestamp" => {
+            let (k, t) = (entries[i].0.clone(), entries[i].1);
+            let up_ok = i == 0 || entries[i - 1].0 != k || entries[i - 1].1 > t + 1;
+            let down_ok = t > 0 && (i + 1 >= entries.len() || entries[i + 1].0 != k || entries[i + 1].1 + 1 < t);
+            if up_ok {
+                entries[i].1 = t + 1;
+            } else if down_ok {
+                entries[i].1 = t - 1;
+            } else {
+                return None;
+            }
+        }
+        "add-entry" => {
+            let j = first_of_key(entries, i);
+            let e = (entries[i].0.clone(), fresh_ts, Some(b"added".to_vec()));
+            entries.insert(j, e);
+        }
+        _ => return None,
+    }
+    Some(())
+}
+
+/// the final block of an SST carries the setsum of its entries (unchecksummed: D-10); put `want`
+/// where the rebuilt file says `have`
+fn patch_metadata_setsum(path: &str, have: &[u8; 32], want: &[u8; 32]) -> bool {
+    let Ok(mut bytes) = std::fs::read(path) else { return false };
+    let hits: Vec<usize> = (0..bytes.len().saturating_sub(31)).filter(|&i| &bytes[i..i + 32] == have).collect();
+    if hits.len() != 1 {
+        return false;
+    }
+    bytes[hits[0]..hits[0] + 32].copy_from_slice(want);
+    std::fs::write(path, bytes).is_ok()
+}
+
+/// The systematic stream on file contents: for every kind of file the fragments still to be
+/// verified name (added by an ingest, written by a compaction, read by one, written by a garbage
+/// collection, read by one) one file is picked in a copy of the store directory, ONE entry of it is
+/// dropped / duplicated under another timestamp / given another value / another timestamp / an
+/// entry is added, the file keeps its name (so every recorded digest still matches), its metadata
+/// setsum is the recomputed one or the one the name promises, and the real LsmVerifier runs on the
+/// copy: it must end with a corruption error; the model gets the same directory and contents.
+/// The untampered copy goes first (control: must end ok; also one honest whole-pass case).
+fn tamper_matrix(rec: &mut Recorder, rng: &mut Rng, sim: &Sim, root: &str, tag: &str, taint: &Option<String>, rot: &mut std::collections::BTreeMap<&'static str, u64>) {
+    let dir = full_dir(root);
+    if dir.unreadable || dir.to_process().is_empty() {
+        return;
+    }
+    let mut cands: std::collections::BTreeMap<&'static str, Vec<String>> = Default::default();
+    for (_, es) in dir.to_process() {
+        for e in es.iter().skip(1) {
+            let k = edit_kind(e);
             for a in &e.added {
-                cands.push((a.clone(), if gc { "gc-output" } else if e.rmed.is_empty() { "flush-output" } else { "compaction-output" }));
+                let role = match k {
+                    "ingest" => "ingest-add",
+                    "gc" => "gc-output",
+                    _ => "compaction-output",
+                };
+                cands.entry(role).or_default().push(a.clone());
             }
             for r in &e.rmed {
-                cands.push((r.clone(), if gc { "gc-input" } else { "compaction-input" }));
+                cands.entry(if k == "gc" { "gc-input" } else { "compaction-input" }).or_default().push(r.clone());
             }
         }
     }
@@ -211,122 +888,109 @@ fn tamper_sst_under_gc(rec: &mut Recorder, rng: &mut Rng, sim: &Sim, root: &str,
         rec.count("sst_tamper.no_unverified_transaction");
         return;
     }
-    // pick the role first so that the rare roles (GC and compaction files) are not drowned out
-    let mut roles: Vec<&'static str> = cands.iter().map(|c| c.1).collect();
-    roles.sort();
-    roles.dedup();
-    let want = roles[rng.below(roles.len() as u64) as usize];
-    let of_role: Vec<&(String, &'static str)> = cands.iter().filter(|c| c.1 == want).collect();
-    let (victim, role) = of_role[rng.below(of_role.len() as u64) as usize].clone();
-    let copy = format!("{}.tamper", root);
-    let _ = std::fs::remove_dir_all(&copy);
-    if copy_dir(Path::new(root), Path::new(&copy)).is_err() {
-        return;
-    }
-    let verdict_of = |dir: &str| -> String {
-        let opts = sim.cfg.options(dir);
-        let r = match lsmtk::LsmVerifier::open(opts) {
-            Ok(mut v) => v.verify(),
-            Err(e) => Err(e),
-        };
-        match r {
-            Ok(()) => "ok".to_string(),
-            Err(e) => match lsmtk::backoff_path(&e) {
-                Some(p) => format!("backoff:{}", p),
-                None => {
-                    let s = format!("{:?}", e);
-                    if s.contains("corruption") { "corruption".to_string() } else { format!("error:{}", s.chars().filter(|c| !c.is_whitespace()).take(80).collect::<String>()) }
-                }
-            },
-        }
-    };
-    // locate the victim in the copy (trash/ first, as the verifier does, then sst/)
-    let name = format!("{}.sst", victim);
-    let vpath = [format!("{}/trash/{}", copy, name), format!("{}/sst/{}", copy, name)].into_iter().find(|p| Path::new(p).exists());
-    let Some(vpath) = vpath else {
-        rec.count("sst_tamper.victim_not_present");
-        let _ = std::fs::remove_dir_all(&copy);
-        return;
-    };
-    let Ok(mut entries) = read_sst(&vpath) else {
-        let _ = std::fs::remove_dir_all(&copy);
-        return;
-    };
-    if entries.is_empty() {
-        let _ = std::fs::remove_dir_all(&copy);
-        return;
-    }
-    let i = rng.below(entries.len() as u64) as usize;
-    let kind = match rng.below(3) {
-        0 => {
-            entries.remove(i);
-            "drop"
-        }
-        1 => {
-            entries[i].2 = Some(b"tampered".to_vec());
-            "modify"
-        }
-        _ => {
-            // "duplicate": the same key and payload once more under an unused older timestamp
-            let mut e = entries[i].clone();
-            let next_ts = entries.get(i + 1).filter(|n| n.0 == e.0).map(|n| n.1 + 1).unwrap_or(0);
-            if e.1 == 0 || next_ts >= e.1 {
-                entries.remove(i);
-                "drop"
-            } else {
-                e.1 -= 1;
-                entries.insert(i + 1, e);
-                "duplicate"
-            }
-        }
-    };
-    if entries.is_empty() {
-        // an SST cannot be empty; fall back to modifying the single entry
-        let _ = std::fs::remove_dir_all(&copy);
-        rec.count("sst_tamper.single_entry_file_skipped");
-        return;
-    }
-    // rebuild the file under the same name
-    let tmp = format!("{}.rebuild", vpath);
-    let built = (|| -> Result<(), String> {
-        use sst::Builder;
-        let mut b = sst::SstBuilder::new(sst::SstOptions::default(), &tmp).map_err(|e| format!("{:?}", e))?;
-        for (k, t, v) in &entries {
-            match v {
-                Some(v) => b.put(k, *t, v).map_err(|e| format!("{:?}", e))?,
-                None => b.del(k, *t).map_err(|e| format!("{:?}", e))?,
-            }
-        }
-        b.seal().map_err(|e| format!("{:?}", e))?;
-        Ok(())
-    })();
-    if built.is_err() {
-        let _ = std::fs::remove_dir_all(&copy);
-        return;
-    }
-    // control: the untampered copy must verify
+    // control
     let control_dir = format!("{}.control", root);
     let _ = std::fs::remove_dir_all(&control_dir);
-    let control = if copy_dir(Path::new(root), Path::new(&control_dir)).is_ok() { verdict_of(&control_dir) } else { "copy-failed".to_string() };
+    if copy_dir(Path::new(root), Path::new(&control_dir)).is_err() {
+        return;
+    }
+    let control = pass_case(rec, &format!("{} control", tag), &sim.cfg, &control_dir, taint, None, "pass.control", None);
     let _ = std::fs::remove_dir_all(&control_dir);
-    let _ = std::fs::remove_file(&vpath);
-    let _ = std::fs::rename(&tmp, &vpath);
-    let tampered = verdict_of(&copy);
-    let _ = std::fs::remove_dir_all(&copy);
-    rec.count(&format!("sst_tamper.{}.{}", kind, role));
     if control != "ok" {
         rec.count("sst_tamper.inconclusive_control_not_ok");
         return;
     }
-    let v = if tampered == "ok" {
-        Verdict::Fail { class: "tampered-sst-entry-accepted".into(), detail: format!("{} {} one entry of {} ({} of an unverified transaction); LsmVerifier::verify still returns ok", tag, kind, &victim[..12], role) }
-    } else {
-        Verdict::Ok
-    };
-    rec.case(&format!("# {} sst-tamper {} {}", tag, kind, &victim[..12]), "#", v, Some(fnv(format!("{}{}{}", tag, kind, victim).as_bytes())));
+    for role in ROLES {
+        let Some(list) = cands.get(role) else { continue };
+        // files added by an ingest are everywhere: every third time is plenty
+        if *role == "ingest-add" {
+            let r = rot.entry("ingest-add-turn").or_insert(0);
+            *r += 1;
+            if *r % 3 != 1 {
+                continue;
+            }
+        }
+        let victim = list[rng.below(list.len() as u64) as usize].clone();
+        let r = rot.entry(role).or_insert(0);
+        let combo = *r % 10;
+        *r += 1;
+        let kind = TAMPER_KINDS[(combo % 5) as usize];
+        let keep_meta = combo >= 5;
+        let copy = format!("{}.tamper", root);
+        let _ = std::fs::remove_dir_all(&copy);
+        if copy_dir(Path::new(root), Path::new(&copy)).is_err() {
+            continue;
+        }
+        let name = format!("{}.sst", victim);
+        let vpath = [format!("{}/trash/{}", copy, name), format!("{}/sst/{}", copy, name)].into_iter().find(|p| Path::new(p).exists());
+        let Some(vpath) = vpath else {
+            rec.count("sst_tamper.victim_not_present");
+            let _ = std::fs::remove_dir_all(&copy);
+            continue;
+        };
+        let Ok(mut entries) = read_sst(&vpath) else {
+            let _ = std::fs::remove_dir_all(&copy);
+            continue;
+        };
+        if entries.is_empty() {
+            let _ = std::fs::remove_dir_all(&copy);
+            continue;
+        }
+        let fresh_ts = (1u64 << 40) + rec.n;
+        if tamper_entries(rng, &mut entries, kind, fresh_ts).is_none() {
+            rec.count(&format!("sst_tamper.not_applicable.{}", kind));
+            let _ = std::fs::remove_dir_all(&copy);
+            continue;
+        }
+        let tmp = format!("{}.rebuild", vpath);
+        if build_sst(&tmp, &entries).is_err() {
+            rec.count("sst_tamper.rebuild_failed");
+            let _ = std::fs::remove_dir_all(&copy);
+            continue;
+        }
+        let mut meta = "recomputed";
+        if keep_meta {
+            let have = entry_setsum(&entries).digest();
+            if let Some(want) = setsum::Setsum::from_hexdigest(&victim) {
+                if patch_metadata_setsum(&tmp, &have, &want.digest()) {
+                    meta = "kept";
+                } else {
+                    rec.count("sst_tamper.metadata_patch_failed");
+                }
+            }
+        }
+        let _ = std::fs::remove_file(&vpath);
+        let _ = std::fs::rename(&tmp, &vpath);
+        rec.count(&format!("sst_tamper.{}.{}.meta-{}", role, kind, meta));
+        pass_case(rec, &format!("{} sst-tamper {} {} meta-{} {}", tag, role, kind, meta, &victim[..12]), &sim.cfg, &copy, taint, Some(&format!("{} one entry of {} ({})", kind, &victim[..12], role)), "pass.tampered", Some(&victim));
+        let _ = std::fs::remove_dir_all(&copy);
+    }
 }
 
-pub fn run_history(rec: &mut Recorder, seed: u64, hidx: u64, len: usize, nkeys: usize, tampers: usize, gc_focus: bool) {
+/// a digest text changed so that `Setsum::from_hexdigest` still reads the same value: the first
+/// digit of a byte `0x` written `+x` (`u8::from_str_radix` takes a sign), or a digit `a`–`f` in upper
+/// case.  The record says what it said: both verifiers must accept it as they accept the original.
+fn same_value_text(rng: &mut Rng, s: &str) -> Option<String> {
+    let b = s.as_bytes();
+    let mut spots: Vec<(usize, u8)> = vec![];
+    for i in 0..b.len() {
+        if i % 2 == 0 && b[i] == b'0' {
+            spots.push((i, b'+'));
+        }
+        if (b'a'..=b'f').contains(&b[i]) {
+            spots.push((i, b[i].to_ascii_uppercase()));
+        }
+    }
+    if spots.is_empty() {
+        return None;
+    }
+    let (i, c) = spots[rng.below(spots.len() as u64) as usize];
+    let mut v = b.to_vec();
+    v[i] = c;
+    String::from_utf8(v).ok()
+}
+
+pub fn run_history(rec: &mut Recorder, seed: u64, hidx: u64, len: usize, nkeys: usize, tampers: usize, gc_focus: bool, rot: &mut std::collections::BTreeMap<&'static str, u64>) {
     let mut rng = Rng::for_case(seed, if gc_focus { 1040 } else { 104 }, hidx);
     let mut cfg = Cfg::gen(&mut rng);
     let mode = if gc_focus { 1 } else { hidx % 4 % 3 };
@@ -349,6 +1013,8 @@ pub fn run_history(rec: &mut Recorder, seed: u64, hidx: u64, len: usize, nkeys: 
     let mverifier = lsmtk::ManifestVerifier::open().unwrap();
     let mut taint: Option<String> = None;
     let mut seen_fragments: std::collections::BTreeSet<String> = Default::default();
+    let mut tamper_points = 0;
+    CONTENTS.with(|c| c.borrow_mut().clear());
     for (step, op) in ops.iter().enumerate() {
         let tag = format!("h{}s{}:{}", hidx, step, op.render());
         if let Op::Reopen = op {
@@ -361,10 +1027,22 @@ pub fn run_history(rec: &mut Recorder, seed: u64, hidx: u64, len: usize, nkeys: 
                 }
             }
         }
+        // a pass of the real verifier inside the history: the directory as the pass finds it
+        let pre_pass = if let Op::Verify = op { Some(full_dir(&root)) } else { None };
+        let pre_req = pre_pass.as_ref().filter(|d| !d.unreadable).map(|d| d.request(&root, cfg.gc_versions));
         let res = match guarded(std::panic::AssertUnwindSafe(|| sim.apply(op))) {
             Ok(r) => r,
             Err(p) => Err(format!("panic:{}", p)),
         };
+        if let (Some(before), Some(req)) = (&pre_pass, &pre_req) {
+            if res.is_ok() {
+                let after = full_dir(&root);
+                let (edits, _) = count_pass(rec, before, "pass.history");
+                let obs = observed_pass_full(before, &after, &status_of_sim(&sim));
+                rec.count("pass.history");
+                rec.case(req, &obs, tainted(Verdict::Ok, &taint), if edits >= 1 { Some(fnv(req.as_bytes())) } else { None });
+            }
+        }
         if let Err(e) = res {
             rec.case(&format!("# {}", tag), "#", Verdict::Fail { class: taint.clone().unwrap_or_else(|| "fault-free-op-error".to_string()), detail: format!("{} -> {}", tag, e) }, None);
             break;
@@ -373,8 +1051,24 @@ pub fn run_history(rec: &mut Recorder, seed: u64, hidx: u64, len: usize, nkeys: 
         if let Op::Verify = op {
             // the pass itself already ran inside apply(); nothing more here
         }
-        if gc_focus && matches!(op, Op::Flush | Op::Compact(_)) && taint.is_none() && rng.chance(1, 3) {
-            tamper_sst_under_gc(rec, &mut rng, &sim, &root, &tag);
+        if gc_focus && matches!(op, Op::Flush | Op::Compact(_)) && taint.is_none() && rng.chance(1, 3) && tamper_points < 60 {
+            tamper_points += 1;
+            tamper_matrix(rec, &mut rng, &sim, &root, &tag, &taint, rot);
+            // keep the pile of unverified fragments (and with it every dumped directory) bounded:
+            // a real pass on the store's own directory consumes them (and is one more honest case)
+            let d = full_dir(&root);
+            let pending: usize = d.to_process().iter().map(|f| f.1.len().saturating_sub(1)).sum();
+            if pending > 40 && !d.unreadable {
+                let req = d.request(&root, cfg.gc_versions);
+                let _ = count_pass(rec, &d, "pass.history");
+                sim.verify_pass();
+                let after = full_dir(&root);
+                let st = status_of_sim(&sim);
+                let obs = observed_pass_full(&d, &after, &st);
+                rec.count("pass.history");
+                let v = if st == "ok" { Verdict::Ok } else { Verdict::Fail { class: taint.clone().unwrap_or_else(|| sim.verifier_reject_class()), detail: format!("{} consuming pass ends {}", tag, st) } };
+                rec.case(&req, &obs, tainted(v, &taint), Some(fnv(req.as_bytes())));
+            }
         }
         if let Op::Verify = op {
             rec.count(if sim.last_verify == "ok" { "verifier.ok" } else if sim.last_verify.starts_with("backoff") { "verifier.backoff" } else { "verifier.error" });
@@ -543,6 +1237,22 @@ pub fn run_history(rec: &mut Recorder, seed: u64, hidx: u64, len: usize, nkeys: 
                                 "D"
                             }
                         };
+                        // every third tamper: the text changes, the value it parses to does not
+                        let same_value = rng.chance(1, 4);
+                        if same_value {
+                            t = edits.clone();
+                            let e = &mut t[ei];
+                            let field = match what % 3 {
+                                0 => &mut e.i,
+                                1 => &mut e.o,
+                                _ => &mut e.d,
+                            };
+                            match field.as_ref().and_then(|s| same_value_text(&mut rng, s)) {
+                                Some(x) => *field = Some(x),
+                                None => continue,
+                            }
+                        }
+                        let kind = if same_value { "same-value-text" } else { kind };
                         let tpath = PathBuf::from(format!("{}/tampered.manifest", root));
                         write_fragment(&tpath, &t);
                         let real = mverifier.verify(&tpath);
@@ -550,7 +1260,13 @@ pub fn run_history(rec: &mut Recorder, seed: u64, hidx: u64, len: usize, nkeys: 
                         let _ = std::fs::remove_file(&tpath);
                         let req = ledger_request(&t).unwrap();
                         rec.count(&format!("tamper.{}", kind));
-                        let v = if cls == "accept" { Verdict::Fail { class: "tampered-digest-accepted".into(), detail: format!("{} edit {} field {}", tag, ei, kind) } } else { Verdict::Ok };
+                        let v = if same_value {
+                            if cls == "accept" { Verdict::Ok } else { Verdict::Fail { class: "same-value-digest-text-rejected".into(), detail: format!("{} edit {}: {}", tag, ei, cls) } }
+                        } else if cls == "accept" {
+                            Verdict::Fail { class: "tampered-digest-accepted".into(), detail: format!("{} edit {} field {}", tag, ei, kind) }
+                        } else {
+                            Verdict::Ok
+                        };
                         rec.case(&req, &cls, v, Some(fnv(req.as_bytes())));
                     }
                 }
@@ -567,15 +1283,30 @@ pub fn run_history(rec: &mut Recorder, seed: u64, hidx: u64, len: usize, nkeys: 
 pub fn run(args: &Args) {
     let mut rec = Recorder::new(&args.out, args.only_case);
     let (nh, len, tampers) = if args.thorough { (300, 100, 3) } else { (60, 50, 2) };
+    let mut rot: std::collections::BTreeMap<&'static str, u64> = Default::default();
+    rec.add("code_under_test_checks_gc_tail", tail_checked() as u64);
+    let t0 = std::time::Instant::now();
     for h in 0..nh {
         let nkeys = if h % 3 == 0 { 4 } else if h % 3 == 1 { 7 } else { 12 };
-        run_history(&mut rec, args.seed, h, len, nkeys, tampers, false);
+        run_history(&mut rec, args.seed, h, len, nkeys, tampers, false, &mut rot);
     }
-    for h in 0..(if args.thorough { 60 } else { 12 }) {
-        run_history(&mut rec, args.seed, h, len, if h % 2 == 0 { 5 } else { 9 }, 0, true);
+    if std::env::var("BLUE_DEBUG").is_ok() {
+        eprintln!("plain histories: {:?}", t0.elapsed());
+    }
+    for h in 0..(if args.thorough { 40 } else { 12 }) {
+        run_history(&mut rec, args.seed, h, len, if h % 2 == 0 { 5 } else { 9 }, 0, true, &mut rot);
+    }
+    if std::env::var("BLUE_DEBUG").is_ok() {
+        eprintln!("with gc-focus histories: {:?}", t0.elapsed());
+    }
+    for i in 0..(if args.thorough { 1800 } else { 360 }) {
+        gc_directed(&mut rec, args.seed, i);
+    }
+    if std::env::var("BLUE_DEBUG").is_ok() {
+        eprintln!("with gc-directed: {:?}", t0.elapsed());
     }
     rec.finish(
-        "store histories as in C01; after every manifest transaction (flush, compaction step, reopen) and a third of the writes: books of the current state (manifest O vs sum of listed SST setsums vs setsums recomputed from stored entries), every manifest fragment's chain/balance/discard through the real ManifestVerifier and through Blue.Books.verify over the canonical-setsum group, and tampered copies of fragments with one hex digit of one recorded digest (I, O, D, added, removed) changed; non-trivial = a state with >= 2 files, a fragment with >= 2 transactions, any tampered fragment; distinct by request",
+        "store histories as in C01; after every manifest transaction (flush, compaction step, reopen) and a third of the writes: books of the current state (manifest O vs sum of listed SST setsums vs setsums recomputed from stored entries), every manifest fragment's chain/balance/discard through the real ManifestVerifier and through Blue.Books.verify over the canonical-setsum group, and tampered copies of fragments with one hex digit of one recorded digest (I, O, D, added, removed) changed, or its text changed to another spelling of the same value (+x, upper case); every pass of the real LsmVerifier (inside histories, on untampered copies, on copies with one entry of one file changed under the file's name: file kind x tamper kind x metadata setsum kept/recomputed, on hand-written directories with one garbage collection whose record is consistent but whose outputs are not the policy's) against Blue.Verifier.pass with the real checks (Blue.VerifyOne) on the dumped directory and file contents; non-trivial = a state with >= 2 files, a fragment with >= 2 transactions, any tampered fragment, a pass that has at least one transaction to verify; distinct by request",
         &[],
     );
 }
